@@ -129,7 +129,8 @@ def accumulate(ctx, case):
 
 
 REAL_TEXTS = [('.m1', ['m1'], [], None), ('.m1, .m2', ['m1', 'm2'], [], None), ('.m2 ! .m3', ['m2'], ['m3'], None), ('! .m3', [], ['m3'], 'implicit'),
-              ('.m3, .m4', ['m3', 'm4'], [], None), ('*', [], [], 'explicit'), ('!', None, None, None), ('.m1(', 'bad', None, None), ('! .m4', [], ['m4'], 'implicit')]
+              ('.m3, .m4', ['m3', 'm4'], [], None), ('*', [], [], 'explicit'), ('!', None, None, None), ('.m1(', 'bad', None, None), ('! .m4', [], ['m4'], 'implicit'),
+              ('"', 'bad', None, None), ('.m1(="abc)', 'bad', None, None), ('[.m1', 'bad', None, None), ('a.b.c', 'bad', None, None), ('x@y@z', 'bad', None, None), ('.m1(x=y=z)', 'bad', None, None)]
 
 
 def real_sequences(ctx, case):
@@ -149,7 +150,7 @@ def real_sequences(ctx, case):
             cur = w.ctl.display_matcher if which == 'filter' else w.ctl.stop_matcher
             st = state[which]
             if A == 'bad':
-                ctx.check('malformed text: error line, identical matcher object', len(w.err.items) == nerr + 1 and cur is old_obj)
+                ctx.check('malformed text `%s`: error line, identical matcher object' % text, len(w.err.items) == nerr + 1 and cur is old_obj)
             elif A is None:
                 st = ('const', False)
             elif st[0] == 'const':
@@ -177,6 +178,23 @@ def real_sequences(ctx, case):
                         must_select = (sflag or nm in sure) and nm not in XX
                         must_reject = nm in XX or (not sflag and nm not in sure and nm not in maybe)
                         ctx.check('step %d (%s %s): %s matcher on .%s follows the accumulation rule' % (step_i, which, text, wh, nm), (not must_reject) if real else (not must_select))
+            # what the user sees: a later message is shown iff the accumulated filter selects it, and stops iff the accumulated breakpoint does
+            # (independently of each other)
+            for nm in ('m1', 'm3', 'm5'):
+                k0 = len(w.out.items)
+                live = ctl.add_message(w, 0, name=nm)
+                shown = bool(ctl.msg_lines(w.out.items[k0:]))
+                stopped = any('Stopped at' in x for x in w.out.items[k0:])
+                for wh, real in (('filter', shown), ('breakpoint', stopped)):
+                    s2 = state[wh]
+                    if s2[0] == 'const':
+                        ctx.check('step %d: a later .%s message %s' % (step_i, nm, 'is shown' if wh == 'filter' else 'stops'), real == s2[1])
+                    else:
+                        _, sure, maybe, XX, sflag = s2
+                        must_select = (sflag or nm in sure) and nm not in XX
+                        must_reject = nm in XX or (not sflag and nm not in sure and nm not in maybe)
+                        ctx.check('step %d: whether a later .%s message %s follows the accumulated %s alone' % (step_i, nm, 'is shown' if wh == 'filter' else 'stops', wh),
+                                  (not must_reject) if real else (not must_select))
     finally:
         ctl.restore_show()
 
